@@ -129,6 +129,30 @@ def candidate_runs(src, consts=None):
     return sorted(pts)
 
 
+def brace_body(src, start):
+    """text between the braces of the first `{` at or after position start"""
+    j = src.find("{", start)
+    if j < 0:
+        raise GenError("no `{` found")
+    depth, k = 1, j + 1
+    while depth:
+        if k >= len(src):
+            raise GenError("unbalanced braces")
+        if src[k] == "{":
+            depth += 1
+        elif src[k] == "}":
+            depth -= 1
+        k += 1
+    return src[j + 1:k - 1]
+
+
+def fn_body(src, marker):
+    i = src.find(marker)
+    if i < 0:
+        raise GenError("marker %r not found" % marker)
+    return brace_body(src, i)
+
+
 # ------------------------------------------------------------------------------------------------ decision trees
 class Leaf:
     def __init__(self, toks, diverges_only=False):
